@@ -357,6 +357,37 @@ def nodeBounds (n : NodeF Schema) : IntBounds := { lo := n.minimum, hi := n.maxi
 def withBounds (s : Schema) (b : IntBounds) : Schema :=
   .mk { s.node with minimum := b.lo, maximum := b.hi, xmin := b.xlo, xmax := b.xhi }
 
+/-! ### `--min-sized-ints` rewrites the schema nodes it generates
+    `PrimitiveTypeFromJSONSchemaType` receives pointers INTO the schema node and clears the bounds the chosen
+    type implies; the node a finished declaration keeps for later `cmp.Equal` comparisons is therefore the
+    rewritten one — also below its top level (properties, items, additionalProperties; not inside allOf /
+    anyOf, whose branches are merged into a fresh node).  Listed finding K35: a later same-named node that
+    equals the REWRITTEN node reuses the declaration. -/
+def isIntegerNode (n : NodeF Schema) : Bool :=
+  (n.types.filter (· ≠ "null")) == ["integer"] && n.types.length ≤ 2
+
+mutual
+  def msRewriteNode : Nat → Schema → Schema
+    | 0, s => s
+    | f + 1, s =>
+      if isIntegerNode s.node then withBounds s (primitiveInt true (nodeBounds s.node)).2
+      else msRewriteChildren f s
+  def msRewriteChildren : Nat → Schema → Schema
+    | 0, s => s
+    | f + 1, s =>
+      .mk { s.node with props := msRewriteKvs f s.node.props,
+                        items := (match s.node.items with | some i => some (msRewriteNode f i) | none => none),
+                        addl := (match s.node.addl with | some i => some (msRewriteNode f i) | none => none) }
+  def msRewriteKvs : Nat → List (String × Schema) → List (String × Schema)
+    | 0, kvs => kvs
+    | _, [] => []
+    | f + 1, (k, v) :: rest => (k, msRewriteNode f v) :: msRewriteKvs f rest
+end
+
+/-- the node a finished declaration is compared by -/
+def keptSchema (cfg : Config) (tEff : Schema) : Schema :=
+  if cfg.minSizedInts then msRewriteChildren 32 tEff else tEff
+
 /-- `codegen.PrimitiveTypeFromJSONSchemaType` (+ the AddImport loop of its callers) -/
 def primitiveType (cfg : Config) (jsType format : String) (pointer : Bool) (n : NodeF Schema) : GenM TyRes := do
   let st ← get
@@ -542,11 +573,11 @@ mutual
             -- a DIFFERENT type under the deleted name (e.g. the root type named like such a definition):
             -- both declarations are emitted and the package does not compile
             set ({ st with inProgress := st.inProgress.filter (·.1 ≠ name), hidden := st.hidden.filter (· ≠ name),
-                           decls := st.decls ++ [{ name, ty := r.ty, comment := t.node.description, body, schema := tEff }] } : GenSt)
+                           decls := st.decls ++ [{ name, ty := r.ty, comment := t.node.description, body, schema := keptSchema cfg tEff }] } : GenSt)
             issue "redeclared-type"
         else
           set ({ st with inProgress := st.inProgress.filter (·.1 ≠ name),
-                         decls := st.decls ++ [{ name, ty := r.ty, comment := t.node.description, body, schema := tEff }] } : GenSt)
+                         decls := st.decls ++ [{ name, ty := r.ty, comment := t.node.description, body, schema := keptSchema cfg tEff }] } : GenSt)
         pure (.named name)
       if cfg.onlyModels then return ← finish (.plain [] false)
       match r.ty, r.smeta with
@@ -763,7 +794,10 @@ mutual
         match alookup t.node.ref st.refCache with
         | some dk =>
           match alookup dk doc.defs with
-          | some d => pure (Schema.mk { d.node with dereferenced := true }, some dk)
+          | some d =>
+            -- the declaration's node, as --min-sized-ints left it (K36)
+            let d := if cfg.minSizedInts then msRewriteNode 32 d else d
+            pure (Schema.mk { d.node with dereferenced := true }, some dk)
           | none => throw (.defMissing dk)
         | none =>
           let g ← generateReferencedType cfg doc f t.node.ref
@@ -773,6 +807,7 @@ mutual
             match alookup defName doc.defs with
             | some d =>
               modify fun st => { st with refCache := (t.node.ref, defName) :: st.refCache, derefDefs := defName :: st.derefDefs }
+              let d := if cfg.minSizedInts then msRewriteNode 32 d else d
               pure (Schema.mk { d.node with dereferenced := true }, some defName)
             | none => throw (.defMissing defName)
           | _ => throw .expectedNamed)
